@@ -86,6 +86,22 @@ def plan(tier, seed):
         "kind": "mcx", "mode": mode, "thr": thr, "eps": 1e-6, "eigh": False,
         "P": 2, "depth": depth, "maxf": maxf, "part": "engineA_" + mode,
         "profile": {"x64": True}, "weight": 50})
+  # an infinite threshold (gate disabled) at interval 2: on non-refresh steps
+  # the stored preconditioners must still keep their bits
+  for mode in ["rep", "quant", "sharded"]:
+    tasks.append({
+        "name": "A/%s/thr1e39/eps1e-06/newton/P2/f32" % mode,
+        "kind": "mcx", "mode": mode, "thr": 1e39, "eps": 1e-6,
+        "eigh": False, "P": 2, "depth": depth, "maxf": 1,
+        "part": "engineA_" + mode, "profile": {"x64": False}, "weight": 50})
+  # SGD grafting (the graft step is the raw gradient): a zero preconditioner
+  # (eigh root of zero statistics, ridge 0) meets a 2^40-scaled gradient
+  for mode in ["rep", "sharded"]:
+    tasks.append({
+        "name": "A/%s/thr0.1/eps0/eigh/P1/f32/sgd" % mode,
+        "kind": "mcx", "mode": mode, "thr": 0.1, "eps": 0.0, "eigh": True,
+        "P": 1, "depth": depth, "maxf": maxf, "graft": 1,
+        "part": "engineA_" + mode, "profile": {"x64": False}, "weight": 50})
   # all statistics 1x1 (block size 1): the root routine has a shortcut for it
   for mode, thr, eps in itertools.product(["rep", "quant", "sharded"],
                                           [0.1, 1e30], [1e-6, 0.0]):
@@ -126,7 +142,8 @@ def run_mcx(task, acc):
   cfg = dict(inverse_failure_threshold=thr, matrix_epsilon=eps, eigh=eigh,
              preconditioning_compute_steps=P, start_preconditioning_step=1,
              best_effort_shape_interpretation=False,
-             block_size=task.get("block", 4), graft_type=3)
+             block_size=task.get("block", 4),
+             graft_type=task.get("graft", 3))
   rmode = {"rep": "rep", "quant": "pmap", "sharded": "sharded",
            "pmap3": "pmap"}[mode]
   if mode == "quant":
